@@ -148,6 +148,12 @@ def check(prop, tier, jobs=16, only=None, seed=None, verbose=True):
     counts = {}
     for t in tasks:
         counts[t["cond"]] = counts.get(t["cond"], 0) + 1
+    # interleave the conditions; inside a condition, shards with fewer pinned inputs (= larger ones) go first
+    for c in conds:
+        own = [t for t in tasks if t["cond"] == c.name]
+        own.sort(key=lambda t: (len(t["pin"]), t["rank"]))
+        for i, t in enumerate(own):
+            t["rank"] = i
     tasks.sort(key=lambda t: (t["rank"] / float(counts[t["cond"]]), t["cond"]))
     if verbose:
         print("[vf] %s %s: %d conditions, %d shards, %d workers" % (prop, tier, len(conds), len(tasks), jobs),
